@@ -5,9 +5,9 @@ open JediModel.Match
 
 /-! ### one iteration -/
 
-theorem filterStep_yield {st lower like' fuzzy imported} {c : Cand} {seen : List Key} {new k}
-    (h : filterStep st lower like' fuzzy imported c seen = .yield new k) :
-    new = mkComp like' fuzzy c ∧ k = new.dedupKey st ∧ k ∉ seen ∧ c.isDel = false ∧
+theorem filterStep_yield {st lower like' likeLen fuzzy imported} {c : Cand} {seen : List Key} {new k}
+    (h : filterStep st lower like' likeLen fuzzy imported c seen = .yield new k) :
+    new = mkComp likeLen fuzzy c ∧ k = new.dedupKey st ∧ k ∉ seen ∧ c.isDel = false ∧
       pmatch (foldCase st lower c.str) like' fuzzy = true ∧
       ¬ (imported.contains c.str = true ∧ c.str ≠ like') := by
   unfold filterStep at h
@@ -30,9 +30,9 @@ theorem filterStep_yield {st lower like' fuzzy imported} {c : Cand} {seen : List
           exact hc
     · cases h
 
-theorem filterStep_mark {st lower like' fuzzy imported} {c : Cand} {seen : List Key} {k}
-    (h : filterStep st lower like' fuzzy imported c seen = .mark k) :
-    k = (mkComp like' fuzzy c).dedupKey st ∧ c.isDel = true := by
+theorem filterStep_mark {st lower like' likeLen fuzzy imported} {c : Cand} {seen : List Key} {k}
+    (h : filterStep st lower like' likeLen fuzzy imported c seen = .mark k) :
+    k = (mkComp likeLen fuzzy c).dedupKey st ∧ c.isDel = true := by
   unfold filterStep at h
   split at h
   · cases h
@@ -47,13 +47,13 @@ theorem filterStep_mark {st lower like' fuzzy imported} {c : Cand} {seen : List 
     · cases h
 
 /-- a matching, non-skipped candidate is never dropped silently -/
-theorem filterStep_of_match {st lower like' fuzzy imported} {c : Cand} {seen : List Key}
+theorem filterStep_of_match {st lower like' likeLen fuzzy imported} {c : Cand} {seen : List Key}
     (hm : pmatch (foldCase st lower c.str) like' fuzzy = true)
     (hi : ¬ (imported.contains c.str = true ∧ c.str ≠ like')) :
-    let k := (mkComp like' fuzzy c).dedupKey st
-    (k ∈ seen ∧ filterStep st lower like' fuzzy imported c seen = .skip) ∨
-    (c.isDel = true ∧ filterStep st lower like' fuzzy imported c seen = .mark k) ∨
-    filterStep st lower like' fuzzy imported c seen = .yield (mkComp like' fuzzy c) k := by
+    let k := (mkComp likeLen fuzzy c).dedupKey st
+    (k ∈ seen ∧ filterStep st lower like' likeLen fuzzy imported c seen = .skip) ∨
+    (c.isDel = true ∧ filterStep st lower like' likeLen fuzzy imported c seen = .mark k) ∨
+    filterStep st lower like' likeLen fuzzy imported c seen = .yield (mkComp likeLen fuzzy c) k := by
   intro k
   have hi' : (imported.contains c.str && c.str != like') = false := by
     cases h1 : imported.contains c.str <;> cases h2 : (c.str != like') <;> simp_all
@@ -62,7 +62,7 @@ theorem filterStep_of_match {st lower like' fuzzy imported} {c : Cand} {seen : L
   by_cases hs : seen.contains k = true
   · left; exact ⟨by simpa using hs, by simp [k] at hs ⊢; simp [hs]⟩
   · right
-    have hs' : seen.contains ((mkComp like' fuzzy c).dedupKey st) = false := by simpa [k] using hs
+    have hs' : seen.contains ((mkComp likeLen fuzzy c).dedupKey st) = false := by simpa [k] using hs
     simp only [hs', Bool.false_eq_true, if_false]
     by_cases hd : c.isDel = true
     · left; exact ⟨hd, by simp [hd, k]⟩
@@ -71,25 +71,25 @@ theorem filterStep_of_match {st lower like' fuzzy imported} {c : Cand} {seen : L
 /-! ### the loop -/
 
 /-- everything `filter_names` guarantees about one yielded completion -/
-structure Yielded (st : Settings) (lower : List Char → List Char) (like' : List Char) (fuzzy : Bool)
-    (imported : List (List Char)) (cands : List Cand) (seen : List Key) (c : Comp) : Prop where
+structure Yielded (st : Settings) (lower : List Char → List Char) (like' : List Char)
+    (likeLen : Nat) (fuzzy : Bool) (imported : List (List Char)) (cands : List Cand) (seen : List Key) (c : Comp) : Prop where
   mem : c.cand ∈ cands
-  eq : c = mkComp like' fuzzy c.cand
+  eq : c = mkComp likeLen fuzzy c.cand
   isMatch : pmatch (foldCase st lower c.cand.str) like' fuzzy = true
   fresh : c.dedupKey st ∉ seen
   notDel : c.cand.isDel = false
   notImported : ¬ (imported.contains c.cand.str = true ∧ c.cand.str ≠ like')
 
 theorem filterLoop_yielded (st : Settings) (lower : List Char → List Char) (like' : List Char)
-    (fuzzy : Bool) (imported : List (List Char)) (cands : List Cand) (seen : List Key) (c : Comp)
-    (h : c ∈ filterLoop st lower like' fuzzy imported cands seen) :
-    Yielded st lower like' fuzzy imported cands seen c := by
+    (likeLen : Nat) (fuzzy : Bool) (imported : List (List Char)) (cands : List Cand) (seen : List Key) (c : Comp)
+    (h : c ∈ filterLoop st lower like' likeLen fuzzy imported cands seen) :
+    Yielded st lower like' likeLen fuzzy imported cands seen c := by
   induction cands generalizing seen with
   | nil => simp [filterLoop] at h
   | cons x xs ih =>
     have lift : ∀ seen', (∀ k, k ∈ seen → k ∈ seen') →
-        Yielded st lower like' fuzzy imported xs seen' c →
-        Yielded st lower like' fuzzy imported (x :: xs) seen c := by
+        Yielded st lower like' likeLen fuzzy imported xs seen' c →
+        Yielded st lower like' likeLen fuzzy imported (x :: xs) seen c := by
       intro seen' hs y
       exact ⟨List.mem_cons_of_mem _ y.mem, y.eq, y.isMatch,
         fun hk => y.fresh (hs _ hk), y.notDel, y.notImported⟩
@@ -105,8 +105,8 @@ theorem filterLoop_yielded (st : Settings) (lower : List Char → List Char) (li
       · exact lift _ (fun _ hk => List.mem_cons_of_mem _ hk) (ih _ h)
 
 theorem filterLoop_nodup (st : Settings) (lower : List Char → List Char) (like' : List Char)
-    (fuzzy : Bool) (imported : List (List Char)) (cands : List Cand) (seen : List Key) :
-    ((filterLoop st lower like' fuzzy imported cands seen).map (Comp.dedupKey st)).Nodup := by
+    (likeLen : Nat) (fuzzy : Bool) (imported : List (List Char)) (cands : List Cand) (seen : List Key) :
+    ((filterLoop st lower like' likeLen fuzzy imported cands seen).map (Comp.dedupKey st)).Nodup := by
   induction cands generalizing seen with
   | nil => simp [filterLoop]
   | cons x xs ih =>
@@ -120,7 +120,7 @@ theorem filterLoop_nodup (st : Settings) (lower : List Char → List Char) (like
       refine ⟨?_, ih _⟩
       intro hmem
       rcases List.mem_map.mp hmem with ⟨c, hc, hck⟩
-      have y := filterLoop_yielded _ _ _ _ _ _ _ _ hc
+      have y := filterLoop_yielded _ _ _ _ _ _ _ _ _ hc
       apply y.fresh
       rw [hck, ← hk]
       exact List.mem_cons_self
@@ -128,15 +128,15 @@ theorem filterLoop_nodup (st : Settings) (lower : List Char → List Char) (like
 /-- nothing that matches is lost: the key of every matching, non-skipped candidate was
 already seen, is in the output, or belongs to a `del` target with the same key. -/
 theorem filterLoop_complete (st : Settings) (lower : List Char → List Char) (like' : List Char)
-    (fuzzy : Bool) (imported : List (List Char)) (cands : List Cand) (seen : List Key)
+    (likeLen : Nat) (fuzzy : Bool) (imported : List (List Char)) (cands : List Cand) (seen : List Key)
     (x : Cand) (hx : x ∈ cands)
     (hm : pmatch (foldCase st lower x.str) like' fuzzy = true)
     (hi : ¬ (imported.contains x.str = true ∧ x.str ≠ like')) :
-    (mkComp like' fuzzy x).dedupKey st ∈ seen ∨
-    (mkComp like' fuzzy x).dedupKey st ∈
-      (filterLoop st lower like' fuzzy imported cands seen).map (Comp.dedupKey st) ∨
+    (mkComp likeLen fuzzy x).dedupKey st ∈ seen ∨
+    (mkComp likeLen fuzzy x).dedupKey st ∈
+      (filterLoop st lower like' likeLen fuzzy imported cands seen).map (Comp.dedupKey st) ∨
     ∃ d ∈ cands, d.isDel = true ∧
-      (mkComp like' fuzzy d).dedupKey st = (mkComp like' fuzzy x).dedupKey st := by
+      (mkComp likeLen fuzzy d).dedupKey st = (mkComp likeLen fuzzy x).dedupKey st := by
   induction cands generalizing seen with
   | nil => simp at hx
   | cons y ys ih =>
